@@ -4,9 +4,78 @@
 
 package commitments
 
+// ----- commitment.go -----
+
+//@ func NewHashCommitmentWithRandomness
+//@   props C16 C06
+//@   requires r != nil && (forall k in 0..len(secrets) :: secrets[k] != nil)
+//@   requires [input-count] len(secrets) < 8192
+//@   ensures result != nil && fresh(result) && fresh(result.D) && len(result.D) == len(secrets) + 1
+//@   ensures [C16.decommitment-layout] result.D[0] == r && (forall k in 0..len(secrets) :: result.D[k+1] == secrets[k])
+//@   ensures [C16.commitment-is-hash] result.C != nil && fresh(result.C) && val(result.C) == beint(hashfn(15, framei(le64(len(secrets) + 1), elems(result.D), off(result.D), len(secrets) + 1, old(bvheap()))))
+//@   loop 0 invariant 1 <= i && i <= len(parts) && len(parts) == len(secrets) + 1 && fresh(parts) && parts[0] == r
+//@   loop 0 invariant forall k in 1..i :: parts[k] == secrets[k-1]
+//@   loop 0 invariant forall k in 1..i :: parts[k] != nil
+//@   loop 0 invariant forall k in 0..len(secrets) :: secrets[k] != nil
+
+//@ func NewHashCommitment
+//@   props C16 C06
+//@   requires rand != nil && (forall k in 0..len(secrets) :: secrets[k] != nil)
+//@   requires [input-count] len(secrets) < 8192
+//@   ensures result != nil && fresh(result) && fresh(result.D) && len(result.D) == len(secrets) + 1
+//@   ensures result.D[0] != nil && fresh(result.D[0]) && 0 <= val(result.D[0]) && (forall k in 0..len(secrets) :: result.D[k+1] == secrets[k])
+//@   ensures result.C != nil && fresh(result.C)
+
+//@ func NewHashDeCommitmentFromBytes
+//@   props C16 C06
+//@   ensures fresh(result) && len(result) == len(marshalled)
+//@   ensures forall k in 0..len(marshalled) :: (result[k] != nil && fresh(result[k]) && val(result[k]) == beint(bytes(marshalled[k])) && val(result[k]) >= 0)
+
+//@ func (*HashCommitDecommit).Verify
+//@   props C16 C06 C05
+//@   requires cmt != nil && (forall k in 0..len(cmt.D) :: cmt.D[k] != nil)
+//@   requires [input-count] len(cmt.D) <= 8192
+//@   ensures [C16.opens-iff-hash-matches] result <==> (cmt.C != nil && !isnil(cmt.D) && len(cmt.D) > 0 && val(cmt.C) == hashI(cmt.D))
+
+//@ func (*HashCommitDecommit).DeCommit
+//@   props C16 C06 C05
+//@   requires cmt != nil && (forall k in 0..len(cmt.D) :: cmt.D[k] != nil)
+//@   requires [input-count] len(cmt.D) <= 8192
+//@   ensures [C16.opens-iff-hash-matches] result0 <==> (cmt.C != nil && !isnil(cmt.D) && len(cmt.D) > 0 && val(cmt.C) == hashI(cmt.D))
+//@   ensures [C16.skips-randomness] result0 ==> (len(result1) == len(cmt.D) - 1 && arr(result1) == arr(cmt.D) && off(result1) == off(cmt.D) + 1)
+//@   ensures !result0 ==> isnil(result1)
+
+// ----- commitment_builder.go -----
+
+//@ func NewBuilder
+//@   props C16 C06
+//@   ensures result != nil && fresh(result) && len(result.parts) == 0 && fresh(result.parts)
+
+//@ func (*builder).Parts
+//@   props C06
+//@   requires b != nil
+//@   ensures result == b.parts
+
+//@ func (*builder).AddPart
+//@   props C16 C06
+//@   requires b != nil
+//@   modifies b.parts
+//@   ensures result == b && len(b.parts) == old(len(b.parts)) + 1
+//@   ensures b.parts[old(len(b.parts))] == part
+//@   ensures forall k in 0..old(len(b.parts)) :: b.parts[k] == old(b.parts[k])
+
+//@ func (*builder).Secrets
+//@   props C16 C06
+//@   requires b != nil
+//@   ensures [C16.parts-cap] result1 == nil ==> len(b.parts) <= 3
+//@   ensures result1 != nil ==> isnil(result0)
+//@   loop 0 invariant 0 <= secretsLen && secretsLen <= $iter * 281474976710657 && len(b.parts) <= 3
+//@   loop 1 invariant fresh(secrets) && len(b.parts) <= 3
+
 //@ func ParseSecrets
 //@   deadpoints 2
 //@   props C06 C16
 //@   requires forall k in 0..len(secrets) :: secrets[k] != nil
+//@   ensures [C16.parts-cap] result1 == nil ==> len(result0) <= 3
 //@   loop 0 invariant 0 <= el && len(parts) <= 3
 //@   loop 0 invariant [partlen] !isLenEl ==> (0 <= nextPartLen && nextPartLen <= 1048576)
